@@ -503,11 +503,18 @@ def r13_queue_state_per_object(ctx, rule):
     no_shared_class_state(ctx, rule, ['lib_guesser/priority_queue.py', 'lib_guesser/pcfg_grammar.py'], 8, 'the object is shared by every instance of the class: a second session / queue / generator created in the same process starts with (and keeps changing) the state of the first one')
 
 
+def _saved_position_exact(ctx, rule):
+    # "every intermediate state of the queue" includes the saved one: the position written to the .sav is the exact popped
+    # probability, otherwise the restore treats the popped-but-unguessed pre-terminal as emitted (seed C02-j: '{:.15e}'.format)
+    from . import c08
+    return c08.r4_saved_position(ctx, rule)
+
+
 def rules(tier):
     return [('C02.R12', r12_queue_conservation), ('C02.R1', lambda c, r: r1_adoption_kernel(c, r)), ('C02.R2', r2_predecessor), ('C02.R3', r3_coparent_prob),
             ('C02.R4', r4_copy_before_mutate), ('C02.R5', r5_all_children_pushed), ('C02.R6', r6_seeding),
             ('C02.R7', c01.r3b_prob_pure), ('C02.R8', c01.r4_prob_pt_coupling), ('C02.R9', c01.r5_successor), ('C02.R10', _mask_insertion),
-            ('C02.R11', _exact_float), ('C02.R13', r13_queue_state_per_object)] + _loader_bundle() + []
+            ('C02.R11', _exact_float), ('C02.R13', r13_queue_state_per_object), ('C02.R14', _saved_position_exact)] + _loader_bundle() + []
 
 
 META = {
